@@ -88,6 +88,8 @@ def xop(o):
 
 def tasks_in(case):
     """list of bulks, each a list of task_in records; uids number the tasks of the whole case"""
+    from .c11_impl import known_contents, canon
+    known = known_contents(case)
     bulks = {}
     for i, t in enumerate(case['tasks']):
         uid = 't%d' % i
@@ -96,7 +98,8 @@ def tasks_in(case):
                    'ti_exec := %s; ti_ops := %s |}' % (
                        L.string(uid), sandboxes(uid), L.lst([sdin(d) for d in t['in']]),
                        L.lst([sdin(d) for d in t['out']]), L.boolean(t.get('soe')), t['outcome'],
-                       L.lst([L.pair(path(r), L.Z(c)) for r, c in t.get('exec', [])]),
+                       L.lst([L.pair(path(e[0]), L.Z(canon(known, e[1], e[2] if len(e) > 2 else None)))
+                              for e in t.get('exec', [])]),
                        L.lst([xop(o) for o in t.get('ops', [])])))
     return L.lst([L.lst(bulks[b]) for b in sorted(bulks)])
 
@@ -168,7 +171,54 @@ class Gen:
             self.dircopy(tasks, files, dirs, cid)
         if r.random() < 0.3:
             self.chain(tasks, files, cid)
+        if r.random() < 0.3:
+            self.tarsizes(tasks, files, cid)
+        # real data: sizes around the block sizes of tar (512, 10240) and of buffered files (8192)
+        for f in files:
+            if len(f) == 3 and r.random() < 0.3:
+                f.append(self.size())
+        for t in tasks:
+            for e in t['exec']:
+                if len(e) == 2 and r.random() < 0.3:
+                    e.append(self.size())
         return {'files': files, 'dirs': dirs, 'tasks': tasks}
+
+    SIZES = [0, 1, 100, 511, 512, 513, 8191, 8192, 8193, 10240, 26112, 40000]
+
+    def size(self):
+        r = self.r
+        return r.choice(self.SIZES) if r.random() < 0.8 else r.randint(0, 70000)
+
+    def tarsizes(self, tasks, files, cid):
+        """1-4 TARBALL directives of one task with sources of all sizes (the archive crosses block and buffer
+        boundaries), targets in the task sandbox and -- outside the session sandbox -- in resource://, endpoint://,
+        file:// and absolute spellings"""
+        r = self.r
+        self.k += 1
+        k = self.k
+        if r.random() < 0.6:
+            ti = len(tasks)
+            tasks.append({'in': [], 'out': [], 'outcome': 'DONE', 'soe': False, 'exec': [],
+                          'bulk': tasks[-1]['bulk'] + (1 if r.random() < 0.3 else 0)})
+        else:
+            ti = r.randrange(len(tasks))
+        t, uid = tasks[ti], 't%d' % ti
+        for n in range(r.randint(1, 4)):
+            sname = 'big%d_%d.dat' % (k, n)
+            files.append(['client', sname, next(cid), self.size()])
+            q = r.random()
+            if q < 0.55:
+                tgt = self.loc('task', r.choice(['', 'data/', 'a/b/']) + 'm%d_%d.dat' % (k, n), uid, 'task')
+            elif q < 0.7:
+                tgt = self.loc(r.choice(['pilot', 'session']), 'tar%d/m%d.dat' % (k, n), uid, 'none')
+            else:
+                rel = 'rsb/out%d/m%d.dat' % (k, n)
+                tgt = r.choice(['resource:///out%d/m%d.dat' % (k, n), 'endpoint:///R/' + rel, '/R/' + rel,
+                                'file://localhost/R/' + rel, 'file:///R/' + rel])
+            t['in'].append({'source': self.loc('client', sname, uid, 'client'), 'target': tgt, 'action': 'Tarball'})
+            if r.random() < 0.25:                                         # use the member later in the list
+                t['in'].append({'source': tgt, 'target': self.loc('task', 'used%d_%d.dat' % (k, n), uid, 'task'),
+                                'action': r.choice(['Copy', 'Link'])})
 
     def chain(self, tasks, files, cid):
         """dependent directives in one input list: a file is staged (TARBALL / TRANSFER / COPY) and later directives
@@ -578,11 +628,13 @@ class C11(Prop):
             parts = (sbox_rel(sb) + '/' + rel).split('/')
             for i in range(1, len(parts) + 1):
                 ent['/'.join(parts[:i])] = ['D']
-        for sb, rel, cid in case.get('files', []):
-            parts = (sbox_rel(sb) + '/' + rel).split('/')
+        from .c11_impl import known_contents, canon
+        known = known_contents(case)
+        for f in case.get('files', []):
+            parts = (sbox_rel(f[0]) + '/' + f[1]).split('/')
             for i in range(1, len(parts)):
                 ent['/'.join(parts[:i])] = ['D']
-            ent['/'.join(parts)] = ['F', cid]
+            ent['/'.join(parts)] = ['F', canon(known, f[2], f[3] if len(f) > 3 else None)]
         return [[k] + v for k, v in sorted(ent.items())]
 
     def nontrivial(self, case, obs):
